@@ -256,6 +256,13 @@ func (a *Application) translationHandler(trans translator.RequestTranslator) htt
 		// Run through proxy pipeline (inspector, security, routing)
 		a.analyzeRequest(ctx, r, pr)
 
+		// The body inspector only looks at bodies up to 1 MiB, so for larger requests the
+		// profile carries no model name and model routing would be skipped. The translator
+		// has already extracted the model from the full body: use it.
+		if pr.profile != nil && pr.profile.ModelName == "" && pr.model != "" {
+			pr.profile.ModelName = pr.model
+		}
+
 		// Get compatible endpoints for this request
 		endpoints, err := a.getCompatibleEndpoints(ctx, pr)
 		if err != nil {
